@@ -1510,8 +1510,12 @@ func (ra *ringAbs) checkSlot(name string, s *rstate, x *ssa.IndexAddr) {
 	case sp.walk:
 		ph, isPhi := c.r.(*ssa.Phi)
 		if !(isPhi && c.rc == 1 && c.h == 0 && c.n == 0 && c.k == 0) {
-			// a loop-free visit of slot head (e.g. a first element handled apart) is fine too
+			// a loop-free visit of slot head (e.g. a first element handled apart) is fine too; inside a loop the
+			// same slot would be visited for every element
 			if ra.clsEq(s, c, rcls{ok: true, h: 1}) {
+				if blockInLoop(x.Block()) {
+					ra.problem(key, x.Pos(), "%s reads slot ≡ head on every round of its loop: the position is never advanced, so every element visited is the front one", sp.name)
+				}
 				return
 			}
 			ra.problem(key, x.Pos(), "%s must visit the slots head, head+1, … in order, but this index is ≡ %s", sp.name, c)
@@ -2171,4 +2175,23 @@ func (ra *ringAbs) checkLive(name string, s *rstate, x *ssa.IndexAddr, c rcls) {
 			ra.problem(key, x.Pos(), "the element at offset %s from the head is read without that offset being known to lie in 0 … n₀−1: a slot outside the live window is returned as if it were an element", o)
 		}
 	}
+}
+
+// blockInLoop: b can reach itself.
+func blockInLoop(b *ssa.BasicBlock) bool {
+	seen := map[*ssa.BasicBlock]bool{}
+	work := append([]*ssa.BasicBlock{}, b.Succs...)
+	for len(work) > 0 {
+		x := work[len(work)-1]
+		work = work[:len(work)-1]
+		if x == b {
+			return true
+		}
+		if seen[x] {
+			continue
+		}
+		seen[x] = true
+		work = append(work, x.Succs...)
+	}
+	return false
 }
